@@ -155,6 +155,7 @@ func runFED08(r *core.Run) {
 	}
 	r.Strategy = base
 	r.Res.Nontrivial = maxInfl > 1
+	e.abstractProbes([]*fedOp{op})
 	if len(first.reqs) >= 3 {
 		r.Probe("three_or_more_fetches")
 	}
@@ -255,6 +256,7 @@ func runFED07(r *core.Run) {
 		}
 	}
 	r.Res.Nontrivial = len(failed) > 0 && len(r0) >= 2
+	e.abstractProbes([]*fedOp{op})
 	if len(failed) == 0 {
 		return
 	}
@@ -736,6 +738,7 @@ func runFED09(r *core.Run) {
 		}
 	}
 	r.Res.Nontrivial = n >= 3 && len(pool) >= 2
+	e.abstractProbes(pool)
 	if hits > 0 {
 		r.Probe("repeated_request_in_history")
 	}
